@@ -154,6 +154,28 @@ def hv(ctx, command, **kw):
     return s
 
 
+def tlc_trace(ctx, cfg, module, trace_file, timeout=900):
+    """impl -> spec: TLC validates recorded events/bytes. Returns (accepted, index of first rejected record or None)."""
+    r = tlc(ctx, cfg, module, workers=1, timeout=timeout, env={"TRACE": trace_file,
+            "JAVA_TOOL_OPTIONS": "-Xss1g -Dtlc2.tool.queue.IStateQueue=StateDeque"}, count=True, allow_fail=True)
+    if r["ok"]:
+        return True, None
+    last = None
+    unmatched = None
+    with open(r["out"], errors="replace") as fh:
+        for line in fh:
+            m = re.match(r"^/?\\? ?i = (\d+)", line.strip().lstrip("/\\ "))
+            if m:
+                last = int(m.group(1))
+            m = re.search(r'"UNMATCHED", (\d+)', line)
+            if m:
+                unmatched = int(m.group(1))
+    bad = [e for e in r["errors"] if "violated" in e or "UNMATCHED" in e or "Postcondition" in e or "postcondition" in e]
+    if not bad and last is None and unmatched is None:
+        raise ToolError(f"TLC failed on trace validation {cfg}: {r['errors'][:3]} see {r['out']}")
+    return False, (last if last is not None else unmatched)
+
+
 def load_known():
     p = os.path.join(VERIF, "known_findings.json")
     if not os.path.exists(p):
@@ -359,7 +381,74 @@ def check_C06(ctx):
     return finish(ctx)
 
 
-CHECKS = {"C01": check_C01, "C02": check_C02, "C03": check_C03, "C04": check_C04, "C05": check_C05, "C06": check_C06}
+def binary_lines(ctx):
+    cfg = "mc/MC_BinaryQuick.cfg" if ctx.quick else "mc/MC_Binary.cfg"
+    return tlc(ctx, cfg, "mc/MC_Binary.tla", workers=14, timeout=3000)["out"]
+
+
+def gather(prefix):
+    """concatenate the per-shard dump files <prefix>.<n> (and <prefix>.lines.<n>) in shard order"""
+    recs, lines = [], []
+    n = 0
+    while os.path.exists(f"{prefix}.{n}"):
+        recs += open(f"{prefix}.{n}").read().splitlines()
+        if os.path.exists(f"{prefix}.lines.{n}"):
+            lines += open(f"{prefix}.lines.{n}").read().splitlines()
+        n += 1
+    return recs, lines
+
+
+def check_C07(ctx):
+    ctx.rule = ("TLC generates small ontologies (families: 9 name shapes incl. multi-byte characters straddling byte 255 x term/gene/disease names; structure x obsolete/replacement; "
+                "records incl. empty ones x release dates incl. extremes), checks the format's own round trip, and emits them.  Each v3 line is built as a real ontology through "
+                "Builder, hp.obo+annotation files and from_bytes; as_bytes -> from_bytes must give an observationally identical ontology (whole read API + Ontology::compare, names cut to 255 bytes "
+                "on a character boundary), the emitted records must equal the independently encoded ones, and the crate's bytes are decoded by the SPECIFICATION's decoder in TLC (trace validation); "
+                "non-trivial = a name longer than 10 characters or at least one gene")
+    out = binary_lines(ctx)
+    dump = os.path.join(ctx.scratch, "c07dump")
+    s = hv(ctx, "replay-binary", prop="C07", **{"in": out}, dump=dump)
+    if s.get("counters", {}).get("encoder_mismatch"):
+        raise ToolError("harness encoder disagrees with the TLA+ encoder")
+    recs, lines = gather(dump)
+    if not recs:
+        raise ToolError("no as_bytes output recorded")
+    cap = 240 if ctx.quick else 3000
+    step = max(1, len(recs) // cap)
+    sel = list(range(0, len(recs), step))
+    tf = os.path.join(ctx.scratch, "c07trace.ndjson")
+    with open(tf, "w") as fh:
+        for i in sel:
+            fh.write(recs[i] + "\n")
+    ok, idx = tlc_trace(ctx, "trace/TraceBinary.cfg", "trace/TraceBinary.tla", tf)
+    ctx.traces += len(sel) if ok else max(0, (idx or 1) - 1)
+    if not ok:
+        j = sel[(idx or 1) - 1]
+        rec = json.loads(lines[j])
+        os.makedirs(REPLAYS, exist_ok=True)
+        rp = os.path.join(REPLAYS, "C07-trace-%s.json" % hashlib.sha1(recs[j].encode()).hexdigest()[:16])
+        json.dump({"cmd": "trace-binary", "property": "C07", "src": rec["src"], "line": rec["line"],
+                   "diffs": ["the specification's decoder does not accept / does not agree with the bytes written by Ontology::as_bytes (source %s)" % rec["src"]]}, open(rp, "w"))
+        ctx.violations.append(dict(property="C07", what="spec Decode rejects as_bytes output (source %s)" % rec["src"], replay=rp))
+    ctx.assumptions += ["replacement id 0 is excluded: the layout reserves 0 for 'no replacement'",
+                        "ontologies must contain HP:0000001 and HP:0000118 (from_bytes applies the default categories)"]
+    return finish(ctx)
+
+
+def check_C08(ctx):
+    ctx.rule = ("design: on every generated file TLC checks with the specification's own decoder that Decode(Encode(o,v)) = Restrict_v(o), that (sampled) proper prefixes, extensions and unsupported "
+                "version bytes are rejected by the format itself; binding: the harness encoder must equal the TLA+ encoder byte for byte, the real decoder must decode every file "
+                "(v1, v2, v3; two record orders) to exactly the projection the spec derives, and must never return Ok for ANY proper prefix (every offset), any of 256 one-byte extensions and "
+                "several longer ones, any of the 254 unsupported version bytes, a relabelled version, a damaged magic; hang = violation; non-trivial as in C07")
+    out = binary_lines(ctx)
+    s = hv(ctx, "replay-binary", prop="C08", **{"in": out}, deep=1)
+    if s.get("counters", {}).get("encoder_mismatch"):
+        raise ToolError("harness encoder disagrees with the TLA+ encoder")
+    ctx.traces += s.get("cases", 0)
+    ctx.assumptions += ["'rejected' = Err or panic, as the property allows (documented panic); an abort or a hang would be reported"]
+    return finish(ctx)
+
+
+CHECKS = {"C07": check_C07, "C08": check_C08, "C01": check_C01, "C02": check_C02, "C03": check_C03, "C04": check_C04, "C05": check_C05, "C06": check_C06}
 
 
 def run_check(prop, tier, seed):
